@@ -370,3 +370,56 @@ def prop(case, ctx):
         gc.collect()
     ctx.note(ops, m.nontrivial, ['history', 'nontrivial-history' if m.nontrivial else 'plain-history',
                                  'steps=%d' % (len(ops) // 10 * 10)])
+
+
+# --------------------------------------------------------------------------
+# pre(): shape sweep.  Arrays of every "round" length, pointers and function types of 0-2 arguments over
+# the same few item types are built and all kept alive together: distinct C types must be distinct ctype
+# objects with distinct names (the unique-type keys of the different kinds share one cache, so a key of one
+# kind must never read like a key of another kind -- whatever numbers happen to be packed into it).
+
+def pre(ctx):
+    import _cffi_backend as B
+    lengths = [None] + list(range(0, 10))
+    for k in range(4, 41):
+        lengths += [2 ** k - 1, 2 ** k, 2 ** k + 1]
+    made = {}
+
+    def put(key, obj):
+        made[key] = obj
+
+    for name in ('char', 'int', 'double', 'unsigned long'):
+        T = B.new_primitive_type(name)
+        TP = B.new_pointer_type(T)
+        TPP = B.new_pointer_type(TP)
+        V = B.new_void_type()
+        put(('prim', name), T)
+        put(('ptr', name), TP)
+        put(('ptrptr', name), TPP)
+        size = B.sizeof(T)
+        for item, iname, isz in ((T, name, size), (TP, name + '*', 8)):
+            IP = B.new_pointer_type(item)
+            for n in lengths:
+                if n is not None and n * isz >= 2 ** 63:
+                    continue
+                put(('arr', iname, n), B.new_array_type(IP, n))
+        for res, rname in ((T, name), (TP, name + '*'), (TPP, name + '**'), (V, 'void')):
+            for args, aname in (((), '()'), ((T,), '(T)'), ((TP,), '(T*)'), ((T, T), '(T,T)'), ((TP, T), '(T*,T)')):
+                for ell in (False, True):
+                    put(('func', rname, aname.replace('T', name), ell), B.new_function_type(args, res, ell))
+    by_id, by_name = {}, {}
+    for key, obj in made.items():
+        other = by_id.setdefault(id(obj), key)
+        if other != key:
+            ctx.fail('one ctype object %r stands for two different C types: %r and %r' % (obj, other, key),
+                     sweep=True)
+        other = by_name.setdefault(obj.cname, key)
+        if other != key:
+            ctx.fail('two different C types have the same name %r: %r and %r' % (obj.cname, other, key), sweep=True)
+        want_kind = {'prim': 'primitive', 'ptr': 'pointer', 'ptrptr': 'pointer', 'arr': 'array', 'func': 'function'}[key[0]]
+        if obj.kind != want_kind:
+            ctx.fail('%r requested as a %s type is %r (kind %s)' % (key, want_kind, obj, obj.kind), sweep=True)
+        if key[0] == 'arr' and obj.length != key[2]:
+            ctx.fail('array type %r has length %r' % (key, obj.length), sweep=True)
+    ctx.extra['shape_sweep_types'] = len(made)
+    ctx.note(['shape-sweep', len(made)], True, ['shape-sweep'])
